@@ -18,6 +18,8 @@ Definition loops_eqb (a b : list (list nat)) : bool :=
   (length a =? length b) && forallb (fun p => nat_list_eqb (fst p) (snd p)) (combine a b).
 
 (* rust: None = Err(non-manifold); Some (edges, face_edges, loops) *)
+Definition both (a b : Z) : Z := if (a =? 0)%Z || (a =? 100)%Z then (if (b =? 0)%Z then a else b) else a.
+
 Definition check_edges (faces : list (Z * Z * Z))
            (rust : option (list (Z * Z) * list (Z * Z * Z) * list (list Z))) : Z :=
   match identify_edges (map zface faces), rust with
